@@ -195,6 +195,16 @@ func simGen(r *rand.Rand, tier string, n int) []*wire.Case {
 		mk("d-freeze", s)
 	}
 	{
+		s := base() // content that rewrites the unit lists the engine hands out: the engine's own line-up must not change
+		s.ehp = []float64{300, 5000, 5000}
+		s.espd = []float64{90, 110, 95}
+		s.eaction = []int{4, 4, 4}
+		s.progs[0] = "Z+Ap.1.1.400+Z"
+		s.progs[4] = "Z+Ap.1.1.150"
+		s.cycles = 4
+		mk("d-lists-are-copies", s)
+	}
+	{
 		s := base() // units that strike back while an attack on them is being announced: no bracket of their own, hits inside the attacker's
 		s.progs[0] = "Ap.1.1.100+Mo.6+Ms.6"
 		s.progs[1] = "Ao.2.1.100+E+Ap.1.1.50"
@@ -383,6 +393,8 @@ func simGen(r *rand.Rand, tier string, n int) []*wire.Case {
 				return fmt.Sprintf("R%s.%d", sel(), r.Intn(7))
 			case k == 18:
 				return fmt.Sprintf("S.%d", pick(r, 1, 2, -1, -3))
+			case k == 19 && r.Intn(2) == 0:
+				return "Z" // treats the unit lists it is handed as its own
 			}
 			if canAttack {
 				return fmt.Sprintf("Ap.%d.1.%d", pick(r, 1, 2), dmg())
